@@ -91,6 +91,7 @@ def run(ctx):
     ctx.guard(rule_f, ctx, ix)
     ctx.guard(rule_g, ctx, ix)
     ctx.guard(rule_h, ctx, ix)
+    ctx.guard(rule_i, ctx, ix)
 
 
 # ---------------------------------------------------------------------------------------
@@ -685,3 +686,67 @@ def rule_h(ctx, ix):
                               % (f.construct, unparse(a)[:80], K.name, p, p, default), where=where(f, call))
     if n < 3:
         raise AnalysisError('C02.h: only %d saved-value -> defaulting-parameter flows recognised' % n)
+
+
+def rule_i(ctx, ix):
+    """The two sides of a saved key join are restored independently of each other (they have different lengths for 1-n joins)."""
+    R = 'C02.i'
+    ctx.describe(R, 'key joins: each side is restored from its own saved side, the sides are never zipped together', floor=3)
+    mod = ix.module('glue.core.state')
+    n = 0
+    for q, f in sorted(ix.functions.items()):
+        if not q.startswith('glue.core.state._load_data'):
+            continue
+        for node in ast.walk(f.node):
+            gens = []
+            if isinstance(node, (ast.GeneratorExp, ast.ListComp, ast.DictComp, ast.SetComp)):
+                gens = [(g.target, g.iter, node) for g in node.generators]
+            elif isinstance(node, ast.For):
+                gens = [(node.target, node.iter, node)]
+            for tgt, it, owner in gens:
+                if '_key_joins' not in unparse(it) or not (isinstance(tgt, ast.Tuple) and len(tgt.elts) == 3):
+                    continue
+                n += 1
+                k, v0, v1 = (unparse(e) for e in tgt.elts)
+                # local names defined (inside the loop / function) from the sides
+                taint = {v0: {v0}, v1: {v1}, k: {k}}
+                body = owner.body if isinstance(owner, ast.For) else []
+                for _ in range(3):
+                    for st in [s_ for b in body for s_ in ast.walk(b) if isinstance(s_, ast.Assign)]:
+                        src = set()
+                        for x in ast.walk(st.value):
+                            if isinstance(x, ast.Name) and x.id in taint:
+                                src |= taint[x.id]
+                            # targets of comprehensions over tainted iterables
+                        for c in ast.walk(st.value):
+                            if isinstance(c, (ast.GeneratorExp, ast.ListComp)):
+                                for g in c.generators:
+                                    for x in ast.walk(g.iter):
+                                        if isinstance(x, ast.Name) and x.id in taint:
+                                            src |= taint[x.id]
+                        for t in st.targets:
+                            if isinstance(t, ast.Name) and src:
+                                taint[t.id] = taint.get(t.id, set()) | src
+
+                def sides(e):
+                    out = set()
+                    for x in ast.walk(e):
+                        if isinstance(x, ast.Name) and x.id in taint:
+                            out |= taint[x.id]
+                    return out & {v0, v1}
+                mixed = []
+                scope = [owner] if not isinstance(owner, ast.For) else body
+                for b in scope:
+                    for c in ast.walk(b):
+                        if isinstance(c, ast.Call) and call_name(c) == 'zip' and sides(c) == {v0, v1}:
+                            mixed.append(c)
+                        if isinstance(c, ast.Tuple) and len(c.elts) == 2 and not isinstance(c.ctx, ast.Store):
+                            a, b2 = sides(c.elts[0]), sides(c.elts[1])
+                            if a == {v1} and b2 == {v0}:
+                                mixed.append(c)
+                ctx.ob(R, f.construct, 'the saved sides (%s, %s) are restored separately and in position' % (v0, v1), not mixed,
+                       detail='%s combines the two saved sides of a key join (`%s`): the sides have different lengths for 1-n / n-1 joins, '
+                              'so zipping them drops identifiers (or the sides are swapped), and the restored join no longer selects the '
+                              'same rows' % (f.construct, unparse(mixed[0])[:100] if mixed else ''), where=where(f, owner))
+    if n < 3:
+        raise AnalysisError('C02.i: only %d key-join loaders recognised' % n)
